@@ -21,7 +21,11 @@ for d in sorted(glob.glob(os.path.join(os.path.dirname(os.path.dirname(os.path.a
     v = "; ".join(str(x).strip('"') for x in verdicts[:2])
     if not v and "no-failing-input-found" in str(res):
         v = "(no-failing-input-found: " + ", ".join(m.get("replay_kinds", m.get("replay_files", []))[:2]) + ")"
-    rows.append((name, prop, m.get("checked_with", m.get("caught_by", "bin/check " + prop)), "caught" if caught else "MISSED", v[:110], what[:160], needs[:140]))
+    status = "caught" if caught else "MISSED"
+    if m.get("obsolete_after_fix"):
+        # the change relied on a defect that has since been repaired in /repo: it no longer breaks the property
+        status = "no longer a breaking change (after fix " + str(m["obsolete_after_fix"]).split(":")[0].split(" - ")[0][:24] + "); " + ("caught while it was" if caught else "missed while it was")
+    rows.append((name, prop, m.get("checked_with", m.get("caught_by", "bin/check " + prop)), status, v[:110], what[:160], needs[:140]))
 print("| seeded change | property | check | result | oracle verdict / replay | what was changed | needs to manifest |")
 print("|---|---|---|---|---|---|---|")
 for r in rows:
